@@ -22,6 +22,14 @@ type accumulator struct {
 // accumulators finds integer accumulators initialised to 0: H = phi(0 | … ), sum = H + y, and the sum flows
 // back into H directly or through merge phis whose other inputs are H itself.
 func accumulators(f *ssa.Function) []accumulator {
+	out := accumulatorsIn(f)
+	for _, h := range transparentBodies(f) {
+		out = append(out, accumulatorsIn(h)...)
+	}
+	return out
+}
+
+func accumulatorsIn(f *ssa.Function) []accumulator {
 	var out []accumulator
 	for _, b := range f.Blocks {
 		for _, in := range b.Instrs {
